@@ -136,7 +136,8 @@ def run_child(spec: dict, hashseed: int) -> Any:
         json.dump(spec, fd)
         path = fd.name
     try:
-        env = dict(os.environ, PYTHONHASHSEED=str(hashseed), PYTHONPATH=str(ROOT))
+        pythonpath = os.pathsep.join(x for x in (os.environ.get("PYTHONPATH"), str(ROOT)) if x)
+        env = dict(os.environ, PYTHONHASHSEED=str(hashseed), PYTHONPATH=pythonpath)
         proc = subprocess.run([sys.executable, "-m", "props.c13_child", path], cwd=str(ROOT), env=env, capture_output=True, text=True, timeout=600)
     finally:
         os.unlink(path)
